@@ -725,7 +725,7 @@ impl Prop for C15P {
                 sec("scoping-faults", tier.pick(8_000, 160_000)),
                 sec("stray-symbols", tier.pick(8_000, 160_000)),
                 sec("node-slices", tier.pick(6_000, 120_000)),
-                sec("type-faults", tier.pick(12_000, 240_000)),
+                sec("type-faults", tier.pick(24_000, 240_000)),
             ],
             "listing() on random texts (0-120 preceding lines, 1-4-byte characters, CRLF, trailing whitespace, comments) with random ranges on character boundaries; unbound names and re-bound binders injected into random programs printed with varied layout, and stray symbols inserted at token boundaries: the excerpt must be the specified listing of exactly the injected text; every node range of parsed programs re-parsed in the scope at that point; diagnostics of explicit programs with one planted fault: each type diagnostic marks a subexpression whose evident type (literals, operators, type formers, lambdas, variables with ground annotations) agrees with what the message says about it, each definition-order diagnostic shows the definition it names; non-trivial = distinct (text, range) / diagnostic / program",
         );
